@@ -36,7 +36,10 @@ PROPS = {
                 record_dirs=["in"], record_scale=4,
                 families_thorough=[dict(nodes=3, vals=1, max_edges=3, rej="small", nvals=[0, 1]),
                                    dict(nodes=4, vals=1, max_edges=3, rej="none", nvals=[0])]),
-    "C09": dict(kinds=["bfs", "dfs", "pfsmin", "pfsmax"], dirs=["out", "in"], cyc=[True], flavours=ALL4, nvals_thorough=[0, 1]),
+    "C09": dict(kinds=["bfs", "dfs", "pfsmin", "pfsmax"], dirs=["out", "in"], cyc=[True], flavours=ALL4,
+                families_thorough=[dict(nodes=3, vals=2, max_edges=3, rej="small", nvals=[0, 1]),
+                                   dict(nodes=3, vals=1, max_edges=2, rej="all", nvals=[0, 1]),
+                                   dict(nodes=4, vals=1, max_edges=3, rej="none", nvals=[0])]),
     "C10": dict(kinds=["pre", "post"], dirs=["out", "in"], cyc=[False], flavours=ALL4),
 }
 TIERS = {
